@@ -7,14 +7,14 @@ CONSTANTS
  Defect = "none"
  MCCalls = {1, 2, 3, 4, 5, 6, 7, 8}
  Serial = TRUE
- Kinds <- KSrAsync
+ Kinds <- KSr
  Froms <- F1
- Tos <- T23
+ Tos <- T2
  Shapes <- ShFull
  DelimSets <- DNone
  Ctxs <- CxLive
  NonZero <- BF
- NSOut <- NSAll
+ NSOut <- NSDialOther
  WErrs <- ENone
  CWRes <- CWOk
  CRRes <- CROk
